@@ -138,9 +138,15 @@ def classify(x):
         for i, e in enumerate(bad.get("E", [])):
             if e.get("alive") and kinds[i] == "compiler" and len(e["priv"]) > 7 and e["priv"][7] != 0 and (e["code"] == 0 or bad["e"] == "Reinit"):
                 return KJA, f"after {rec_to_op(bad)} Compiler #{i+1} still lists {e['priv'][7]} jump annotation(s) (fresh: 0); {where}"
+        own = [False] * len(kinds)             # what set_error_handler() calls on the emitter itself imply
+        for o in hist:
+            if o[0] == "EEh":
+                own[o[1] - 1] = bool(o[2])
+            elif o[0] in ("Destroy", "Create"):
+                own[o[1] - 1] = False
         for i, e in enumerate(bad.get("E", [])):
-            if e.get("alive") and e.get("owneh") and not any(o[0] == "EEh" and o[1] == i + 1 for o in hist):
-                return KEH, f"after {rec_to_op(bad)} emitter #{i+1} ({kinds[i]}) reports has_own_error_handler()=true, handler id {e['eh']}, but set_error_handler() was never called on it; {where}"
+            if e.get("alive") and e.get("owneh") and not own[i] and kinds[i] == "compiler":
+                return KEH, f"after {rec_to_op(bad)} emitter #{i+1} ({kinds[i]}) reports has_own_error_handler()=true, handler id {e['eh']}, but the last set_error_handler() on the emitter itself (if any) cleared it - run_passes() made the inherited handler its own; {where}"
         return f"projection:{bad.get('e')}", f"{inv} rejected the projection after {rec_to_op(bad)}: H={json.dumps(bad.get('H'))[:300]} E={json.dumps(bad.get('E'))[:500]}; {where}"
     return f"{inv}:{bad.get('e')}", f"{inv} after {json.dumps(bad)[:400]}; {where}"
 
@@ -196,7 +202,7 @@ def validate_shards(ctx, tcfg, traces, tag, nshards, timeout):
         try:
             p = ctx.path(f"{tag}_shard{k}.ndjson")
             vlib.write_ndjson(p, [r for e in shards[k] for r in e])
-            rej.extend(vlib.validate_executions(ctx, MOD_T, tcfg, p, tag=f"{tag}{k}", timeout=timeout, heap="3g", max_rejects=6))
+            rej.extend(vlib.validate_executions(ctx, MOD_T, tcfg, p, tag=f"{tag}{k}", timeout=timeout, heap="3g", max_rejects=2))
         except Exception as ex:  # noqa
             errs.append(ex)
     th = [threading.Thread(target=work, args=(k,)) for k in range(len(shards))]
@@ -218,7 +224,7 @@ def run(ctx):
     # ---- 1. design: abstract invariants + Reset/Reinit statements on the machine itself ----
     T4 = ["HLog", "HEh", "ELog", "EEh"]
     cfg = ctx.path("design.cfg")
-    open(cfg, "w").write(mc_cfg(2, "KindsABC", [1, 3, 4], 8 if q else 9, 2, False, T4, True, "XSpec", DESIGN_CHECKS))
+    open(cfg, "w").write(mc_cfg(2, "KindsABC", [1, 3, 4], 7 if q else 9, 2, False, T4, True, "XSpec", DESIGN_CHECKS))
     r = vlib.run_tlc(ctx, MC, cfg, workers=8, timeout=2400, heap="8g", tag="design")
     vlib.tlc_must_ok(ctx, r, "design (Lifecycle abstract invariants)")
     ctx.log(f"design: {r.distinct} abstract states / {r.generated} transitions, depth {r.depth}: AbstractInv, ResetIsInitM, ReinitIsFreshM hold")
@@ -235,8 +241,8 @@ def run(ctx):
                 ("links", (2, "KindsABC", [1], 4, 1, True, T4, True)),
                 ("comp", (1, "KindsC1", [4, 5, 6], 8, 2, False, ["HEh"], False)),
                 ("two", (2, "KindsAC", [2, 6], 6, 2, False, ["HLog"], True))]
-        sims = [("simA", (2, "KindsABC", [1, 2, 3, 4, 5, 6], 16, 3, True, T4, True), 300),
-                ("simB", (2, "KindsCCA", [2, 4, 5, 6], 14, 2, False, ["HEh", "ELog"], True), 200)]
+        sims = [("simA", (2, "KindsABC", [1, 2, 3, 4, 5, 6], 16, 3, True, T4, True), 150),
+                ("simB", (2, "KindsCCA", [2, 4, 5, 6], 14, 2, False, ["HEh", "ELog"], True), 100)]
     else:
         plan = [("core", (1, "KindsABC", [1, 3, 5], 9, 2, False, [], False)),
                 ("core2", (1, "KindsBC", [2, 3, 4, 6], 8, 2, False, ["HLog"], False)),
@@ -247,7 +253,7 @@ def run(ctx):
         sims = [("simA", (2, "KindsABC", [1, 2, 3, 4, 5, 6], 24, 3, True, T4, True), 1500),
                 ("simB", (2, "KindsCCA", [2, 4, 5, 6], 20, 3, False, ["HEh", "ELog"], True), 800),
                 ("simC", (2, "KindsBCB", [1, 3, 5, 6], 20, 3, True, ["HLog", "EEh"], True), 800)]
-    caps = {"core": 1500, "links": 1500, "comp": 500, "two": 1200} if q else {}
+    caps = {"core": 700, "links": 600, "comp": 400, "two": 500} if q else {}
     for name, args in plan:
         hs += export_histories(ctx, name, args, cap=caps.get(name))
     for name, args, n in sims:
